@@ -204,12 +204,11 @@ def barrier(status_file: str) -> dict[str, Any]:
     return r
 
 
-def _strip_install_note(s: str) -> str:
-    return s
-
-
 def compare_with_expected(res: dict[str, Any], exp: dict[str, Any], verbose: bool) -> bool:
-    if res["rc"] != exp["rc"] or res["out"] != exp["out"]:
+    """Same exit status and the same diagnostic lines. The ORDER of the per-file groups depends on the
+    daemon's edit history even without any fault (fresh daemon vs. incremental update; C03's subject),
+    so lines are compared as a multiset."""
+    if res["rc"] != exp["rc"] or sorted(res["out"].splitlines()) != sorted(exp["out"].splitlines()):
         return False
     return verbose or res["err"] == exp["err"]
 
@@ -450,7 +449,8 @@ def expected(cache_mode: str, version: list[int], base_cache: str | None) -> dic
 
 
 def run_sequence(seq: dict[str, Any], expected_table: dict[str, dict[str, Any]], base_cache: str | None,
-                 max_restarts: int, cli_final: bool = True, strip_faults: bool = False) -> dict[str, Any]:
+                 max_restarts: int, cli_final: bool = True, strip_faults: bool = False,
+                 restart_after: list[int] | None = None) -> dict[str, Any]:
     """Drive one fault sequence against a real daemon. Returns the event list; verdicts are drawn
     by the parent (vlib.c16_faults.classify_event)."""
     root = basic.fresh_dir("seq")
@@ -512,6 +512,15 @@ def run_sequence(seq: dict[str, Any], expected_table: dict[str, dict[str, Any]],
                 e = exp_of(v)
                 ck.update(mode=el["probe_mode"], equal=compare_with_expected(ck, e, verbose))
                 events.append({"i": i, "op": "twin-probe", "version": list(v), "check_cmd": ck})
+                if restart_after and i in restart_after and i != len(seq["elements"]) - 1:
+                    # the twin re-starts its daemon where the faulted run had to, so both see the same history
+                    client_main(["--status-file", d.status_file, "stop"])
+                    d.wait_exit(20)
+                    d.kill()
+                    bad = boot()
+                    if bad:
+                        events.append(bad)
+                        break
                 continue
             hostile = inject(d, f)
             ev: dict[str, Any] = {"i": i, "op": "fault", "fault": f, "hostile": hostile, "version": list(v),
@@ -575,7 +584,7 @@ def stop_path(how: str, after_check: bool, cache_mode: str, base_cache: str | No
             st = client_main(["--status-file", d.status_file, "status"])
             if st["rc"] != 0:
                 return {**out, "inconclusive": "status after start failed", "detail": st}
-            if after_check:
+            if after_check or how == "crash-in-command":
                 ck = client_main(["--status-file", d.status_file, "check", *F.targets(cache_mode)])
                 out["check_rc"] = ck["rc"]
         pid = d.pid
